@@ -7,7 +7,7 @@ pub mod panics;
 pub mod runner;
 
 pub use panics::{catch, PanicInfo};
-pub use runner::{
+pub use runner::{FuzzDriver, 
     main_for, Budget, Check, Ctx, Failure, Gen, Part, Property, Tier, Verdict,
 };
 pub use tape::Tape;
